@@ -99,6 +99,31 @@ CHECKS = {
         "Trusted: refmodel tokenizer/renderer. The lexer looks ahead at most 5 bytes and carries no state between tokens, so length <= 6 covers every first-token decision with every following byte; longer pictures are covered by the token-sequence and blank-run families only.",
         "DESIGN.md §4 C19",
     ),
+
+    "C03": (
+        "exhaustive no-panic exploration in two build profiles (fast; checked = overflow-checks + debug-assertions, run as a child process): op-table BFS closure with scalar extremes, all dates / seconds / microseconds through accessors and tokens, every picture string of length <= 5 (thorough 6), every input of length <= 4 under every single token and <= 3 under every token pair (thorough 5 / 4) for all six types, run-length families 0..=600",
+        "Every call is wrapped in catch_unwind and only 'returns normally' is asserted, so the bound is pure coverage: the complete op table from boundary pools with NaN / infinities / extreme integers, the complete value spaces of dates, seconds and microseconds, the complete bounded languages of pictures and of inputs per token and token pair (which drive every field parser from every short input and every flag interaction between two fields), and every length of blank / digit / hyphen / multi-byte / letter runs as picture and as input. The same exploration is repeated on a build with overflow checks and debug assertions, where every arithmetic wrap in the crate becomes a panic.",
+        "Trusted: catch_unwind semantics; the harness itself is built with the same profile. Strings longer than the bounds are covered only by the run-length and token-repetition families. Allocation failure (abort) is not modelled.",
+        "DESIGN.md §4 C03",
+    ),
+    "C06": (
+        "grammar enumeration of lossless pictures (field permutations x month / weekday name styles x 11 separators x meridian styles x fraction variants) crossed with all dates / all seconds (basis pictures) and with year-long value pools (every picture); pure metamorphic oracle",
+        "For every enumerated (value, lossless picture) pair the real code formats, parses and formats again: the parse must return the original value and the second text must be byte-identical. The reference model only decides which pairs are lossless and unambiguous by the property's definition (four-digit year, month+day or day-of-year, 24-hour or 12-hour+meridian, >= 6 fraction digits when needed, variable-width fields delimited); it never predicts the text, so renderer and parser are checked against each other for every token, case, order and separator.",
+        "Trusted: the losslessness filter (spell.rs denoted()/apply()). Timestamp pictures are date x rotating time pictures, not the full product.",
+        "DESIGN.md §4 C06",
+    ),
+    "C15": (
+        "exhaustive enumeration: all dates (Date, OracleDate x 3 times), all seconds, timestamps every 86,399.999983 s across the range, boundary pools of all types through serde_json and bincode; raw-integer limits through bincode; complete single-edit neighbourhood of canonical JSON strings",
+        "Every enumerated value is serialized and deserialized in both forms by the real code: identity, the human-readable text equals the fixed layout rendered by the reference, the binary form equals the raw count; every raw integer at the range limits +/-1 and the integer extremes (and sub-second payloads for the Oracle-style date) must decode to the same in-range value or fail; every single substitution / deletion / insertion of 20 symbols at every position of canonical strings, plus JSON numbers / null / booleans / empty string, must fail or yield an in-range value.",
+        "Trusted: serde_json, bincode (default fixed-width little-endian configuration), reference renderer. Multi-edit malformed strings are not enumerated.",
+        "DESIGN.md §4 C15",
+    ),
+    "C18": (
+        "exhaustive enumeration over the environment: every possible current local date (all 3,652,059 days, three times of day) injected through the verif-hooks clock override, crossed with partial pictures, short-year pictures, the omitted 12-hour field, complete pictures, the now() constructors and the Time conversions; clocks outside years 1..9999",
+        "The wall clock is the crate's only environment input; with the verif-hooks feature every one of its six reads goes through a thread-local override, so the check decides the clock. For every clock day the partial pictures must default year/month from the clock, day to 1, time to zero (12 for an omitted 12-hour field), complete 1-3 digit years with the leading digits of the clock year, and fail - never normalise - when the composed triple is not a real date; complete pictures must give the same value under every clock; now()/TryFrom<Time> must report the injected instant (Oracle date floored) and fail cleanly for clocks outside the range. Ownership of the clock is shown by a canary against the real clock, the read counter and an identical-replay slice.",
+        "Trusted: chrono NaiveDateTime construction (hook input), the add-only hook patch. Needs the hook (cargo feature verif-hooks).",
+        "DESIGN.md §4 C18",
+    ),
 }
 
 NOT_BUILT_REASON = "check not built yet in this round (work in progress; planned in DESIGN.md §4) — not claimed until its machinery exists and passes on the unchanged tree"
